@@ -108,11 +108,21 @@ class Call:
         self.shown: List[str] = []
         self.nb_params: List[str] = []  # parameters bound to the result of update_bounds
         self.perm_params: List[str] = []  # parameters bound to an argsort result: a permutation of 0..len-1
+        self.n_params: List[str] = []  # scalar parameters bound to the caller's arity  len(domains)
+        self.pos_params: List[str] = []  # other scalar parameters known to be >= 1 in the caller (e.g. the number of values m)
+        self.scalar_params: List[str] = []
+        self.nonneg_params: List[str] = []
 
 
 def caller_calls(prog: Program, fn: FuncInfo) -> Tuple[List[Call], Dict[str, Any]]:
     it = Interp(prog, inline_filter=_never)
-    res = it.run(fn)
+    st_in = State()
+    # contract read off the caller itself: a parameter it reads at position 0 is not empty
+    for node in ast.walk(fn.node):
+        if isinstance(node, ast.Subscript) and isinstance(node.value, ast.Name) and node.value.id in fn.params \
+                and isinstance(node.slice, ast.Constant) and node.slice.value == 0:
+            st_in.facts.add(cmp_cond(">=", Aff.atom(("len", node.value.id, ())), ONE))
+    res = it.run(fn, state=st_in)
     calls: Dict[int, Call] = {}
     info: Dict[str, Any] = {"paths": len(res)}
     for r in res:
@@ -144,6 +154,13 @@ def caller_calls(prog: Program, fn: FuncInfo) -> Tuple[List[Call], Dict[str, Any
                     continue
                 v = it.value_at(s, e.hpos, a)
                 vals.append(("scalar", v))
+                c.scalar_params.append(pn)
+                if isinstance(v, Aff) and v == Aff.atom(("len", fn.params[0], ())):
+                    c.n_params.append(pn)
+                elif isinstance(v, Aff) and not v.is_const() and s.facts.decide(cmp_cond(">=", v, ONE)) is True:
+                    c.pos_params.append(pn)
+                elif isinstance(v, Aff) and not v.is_const() and s.facts.decide(cmp_cond(">=", v, ZERO)) is True:
+                    c.nonneg_params.append(pn)
                 at = v.single_atom()
                 if at is not None and v.c == 0 and v.t[0][1] == 1:
                     sub.setdefault(at, _init(pn))
@@ -282,12 +299,13 @@ def analyse_helper(prog: Program, call: Call, nb_contract: bool) -> List[Dict[st
     st0 = State()
     for c in call.facts:
         st0.facts.add(c)
-    scalar_params = {p for p in fn.params if not any(p == (cc[1].t and None) for cc in [])}
-    n_atom = _init("n") if "n" in fn.params else None
+    n_atom = _init(call.n_params[0]) if call.n_params else None
     if n_atom is not None:
         st0.facts.add(cmp_cond(">=", n_atom, ONE))  # contract: a constraint has at least one variable
-    if "m" in fn.params:
-        st0.facts.add(cmp_cond(">=", _init("m"), ONE))
+    for pp in call.pos_params:
+        st0.facts.add(cmp_cond(">=", _init(pp), ONE))
+    for pp in call.nonneg_params:
+        st0.facts.add(cmp_cond(">=", _init(pp), ZERO))
     if nb_contract and n_atom is not None:
         for pn in call.nb_params:
             st0.facts.add(cmp_cond(">=", _init(pn), ONE))
@@ -304,7 +322,7 @@ def analyse_helper(prog: Program, call: Call, nb_contract: bool) -> List[Dict[st
         for a in atoms_in(c):
             if isinstance(a, tuple) and a[0] in ("len", "dim"):
                 array_params.add(a[1])
-    scalars = [_init(p) for p in fn.params if p not in array_params and p in ("n", "nb", "m")]
+    scalars = [_init(p) for p in call.scalar_params if p in call.n_params or p in call.nb_params or p in call.pos_params or p in call.nonneg_params]
     inv_by_loop: Dict[int, List[Tuple[str, Aff]]] = {}
     for l in loops:
         pre_vals: Dict[str, Aff] = {}
@@ -388,7 +406,9 @@ def check_update_bounds(ctx: Ctx, prog: Program, call: Call) -> bool:
     st0 = State()
     for c in call.facts:
         st0.facts.add(c)
-    n = _init("n")
+    if not call.n_params:
+        raise AnalysisError(f"{fn.fq}: no parameter carries the arity of the constraint")
+    n = _init(call.n_params[0])
     st0.facts.add(cmp_cond(">=", n, ONE))
     res = it.run(fn, state=st0)
     loops = []
